@@ -123,6 +123,28 @@ class _Sqlite3Shim:
 _sconn.sqlite3 = _Sqlite3Shim()
 
 
+class RecordingDedup(BloomDeduplicator):
+    """The real filter; additionally remembers what it was told so that the
+    explorer can re-materialise it after forking a state (DESIGN.md 2.2)."""
+
+    def __init__(self, *a, **k):
+        super().__init__(*a, **k)
+        self.told = set()
+
+    def mark_seen(self, message_id):
+        self.told.add(message_id)
+        return super().mark_seen(message_id)
+
+    def hydrate(self, message_ids):
+        ids = list(message_ids)
+        self.told.update(ids)
+        return super().hydrate(ids)
+
+    def reset(self):
+        self.told = set()
+        return super().reset()
+
+
 # ---------------------------------------------------------------------------
 # circuit breaker seam: always a fresh, closed, real circuit
 # ---------------------------------------------------------------------------
@@ -256,7 +278,7 @@ class World:
                 reg.clear()
         except Exception:
             pass
-        _dedup._deduplicator = BloomDeduplicator(expected_items=self.dedup_capacity)
+        _dedup._deduplicator = RecordingDedup(expected_items=self.dedup_capacity)
         import dataclasses
 
         import stabilize.resilience.config as _rcfg
@@ -288,7 +310,7 @@ class World:
 
     def fresh_filter(self, ids=(), authoritative=False):
         """Re-materialise the in-memory dedup filter after a fork."""
-        f = BloomDeduplicator(expected_items=self.dedup_capacity)
+        f = RecordingDedup(expected_items=self.dedup_capacity)
         for i in ids:
             f.mark_seen(i)
         f._authoritative = bool(authoritative)
